@@ -256,6 +256,12 @@ func exceptionJustified(format string, h []byte) (bool, string) {
 		return at(128, "DICM"), "pinned signature: DICM at offset 128"
 	case "image/gif":
 		return at(0, "GIF87a", "GIF89a"), "pinned signature: GIF87a / GIF89a at the start"
+	case "application/x-rpm":
+		return at(0, "drpm", "\xed\xab\xee\xdb"), "pinned signature: drpm / ED AB EE DB at the start"
+	case "image/x-icns":
+		return at(0, "icns"), "pinned signature: icns at the start"
+	case "application/x-cpio":
+		return at(0, "070707", "070701", "070702"), "pinned signature: 070707 / 070701 / 070702 at the start"
 	case "application/zip":
 		ok := len(h) > 3 && h[0] == 'P' && h[1] == 'K' && (h[2] == 3 || h[2] == 5 || h[2] == 7) && (h[3] == 4 || h[3] == 6 || h[3] == 8)
 		return ok, "pinned signature: PK 03/05/07 04/06/08 at the start"
